@@ -113,6 +113,9 @@ class Model(Object):
         for y in ["reactions", "genes", "metabolites", "groups"]:
             for x in getattr(self, y, []):
                 x._model = self
+        # the solver interfaces do not carry all their tolerances over
+        if getattr(self, "_tolerance", None) is not None and hasattr(self, "_solver"):
+            self.tolerance = self._tolerance
         if not hasattr(self, "name"):
             self.name = None
 
@@ -481,6 +484,9 @@ class Model(Object):
             # Cplex has an issue with deep copies
         except Exception:  # pragma: no cover
             new._solver = copy(self.solver)  # pragma: no cover
+        # the solver interfaces do not carry all their tolerances over
+        if self._tolerance is not None:
+            new.tolerance = self._tolerance
 
         # it doesn't make sense to retain the context of a copied model so
         # assign a new empty context
